@@ -280,7 +280,8 @@ func parseTagTo(toVal string, isHasEqual bool) (min int, max int, err error) {
 
 // RemoveTypePtr 移除多指针
 func RemoveTypePtr(t reflect.Type) reflect.Type {
-	for t.Kind() == reflect.Ptr {
+	// 自引用的指针类型(如: type P *P)永远移除不完, 限制层数防止死循环
+	for i := 0; i < 32 && t.Kind() == reflect.Ptr; i++ {
 		t = t.Elem()
 	}
 	return t
